@@ -5,7 +5,7 @@ import RModel.Gen.OutputShapes
   the exit status.
 
   Generated (translate/bindings.py, translate/output_shapes.py): `Gen.tsDecls`, `Gen.wrapperExpect`, `Gen.rustShapes`,
-  `Gen.formatJsonShapes`, `Gen.alwaysSome`, `Gen.dispatch`, `Gen.handlerEvents`, `Gen.exitOk/exitRules/exitDefault`,
+  `Gen.formatJsonShapes`, `Gen.alwaysSome`, `Gen.dispatch`, `Gen.handlerEvents`, `Gen.exitOk/exitOkInterrupted/okArmStdoutSites/exitRules/exitDefault`,
   `Gen.errArm*Sites`, `Gen.preDispatchExits`, `Gen.initHelperStdoutSites`, `Gen.coreStdoutSites`.
 
   Hand-written here (validated against the real CLI by the grid of checks/c19.py):
@@ -16,6 +16,7 @@ import RModel.Gen.OutputShapes
       member may or may not be present;
     * `run`: sequential interpretation of the guarded event list of a handler; `outcome`: main's Ok/Err arms on top;
     * `intended`: the effect a command line asks for;  an operation that returns Ok has had its effect;
+    * no signal arrives: main's interrupted flag is false in every row (`Gen.exitOkInterrupted` is only pinned non-zero);
     * stdout is a pipe in every row (so `rename` without `-y` fails inside `rename_operation` before its prompt), the
       `RENAMIFY_DEBUG_*` variables are unset, clap rejects an invalid argv before any handler runs.
 -/
